@@ -36,12 +36,12 @@ type grpcLink struct {
 	unary   []grpc.UnaryServerInterceptor
 	streamI []grpc.StreamServerInterceptor
 
-	down     bool
-	cutDir   string
-	cutLeft  int // messages that still pass in cutDir before the cut (-1: not armed)
-	fired    *bool
-	streams  []*simStream
-	Stats    struct{ Unary, Streams, MsgC2S, MsgS2C, Cuts uint64 }
+	down    bool
+	cutDir  string
+	cutLeft int // messages that still pass in cutDir before the cut (-1: not armed)
+	fired   *bool
+	streams []*simStream
+	Stats   struct{ Unary, Streams, MsgC2S, MsgS2C, Cuts uint64 }
 }
 
 func newGrpcLink() *grpcLink {
@@ -55,7 +55,9 @@ func (l *grpcLink) RegisterService(desc *grpc.ServiceDesc, impl any) {
 	l.impls[desc.ServiceName] = impl
 }
 
-func (l *grpcLink) CutAfter(dir string, n int, fired *bool) { l.cutDir, l.cutLeft, l.fired = dir, n, fired }
+func (l *grpcLink) CutAfter(dir string, n int, fired *bool) {
+	l.cutDir, l.cutLeft, l.fired = dir, n, fired
+}
 
 func (l *grpcLink) Heal() {
 	l.down = false
@@ -194,18 +196,18 @@ type msgQueue struct {
 }
 
 type simStream struct {
-	l        *grpcLink
-	mu       simrt.Mutex
-	cv       *simrt.Cond
-	c2s, s2c msgQueue
-	done     bool  // handler returned
-	st       error // handler's status (nil = OK)
-	broken   bool  // link cut
-	cancelled bool // client context cancelled
-	cctx     context.Context
-	sctx     context.Context
-	scancel  context.CancelFunc
-	window   int
+	l         *grpcLink
+	mu        simrt.Mutex
+	cv        *simrt.Cond
+	c2s, s2c  msgQueue
+	done      bool  // handler returned
+	st        error // handler's status (nil = OK)
+	broken    bool  // link cut
+	cancelled bool  // client context cancelled
+	cctx      context.Context
+	sctx      context.Context
+	scancel   context.CancelFunc
+	window    int
 }
 
 // breakLink may be called while the caller holds s.mu (a SendMsg that triggers the cut): it does
